@@ -9,6 +9,9 @@ import DriverOps.Scan
 import DriverOps.Rechunk
 import DriverOps.Partial
 import DriverOps.UserAgg
+import DriverOps.Cohorts
+import DriverOps.Graph
+import DriverOps.MultiBin
 
 open Flox DriverOps
 
@@ -19,7 +22,10 @@ def ops : List (String × (List (List String) → String)) :=
     ("scan", handleScan),
     ("rechunk-optimal", handleRechunk), ("rechunk-blockwise", handleRechunk), ("rechunk-cohorts", handleRechunk), ("rechunk-spec", handleRechunk),
     ("partial", handlePartial),
-    ("reduceR", handleUserAgg) ]
+    ("reduceR", handleUserAgg),
+    ("cohorts", handleCohorts), ("cohortspec", handleCohorts),
+    ("graph", handleGraph),
+    ("bincode", handleMultiBin), ("ravel", handleMultiBin), ("factor", handleMultiBin), ("multi", handleMultiBin) ]
 
 def handle (line : String) : String :=
   let secs := sections line
